@@ -322,6 +322,80 @@ def check_mixed_backing(scn, ref_cache):
     return out
 
 
+def gen_history(scn, key):
+    """O12: a short call history over SHARED argument objects (see check_history)."""
+    rng = random.Random(key + "/hist")
+    op = scn["op"]
+    base = {k: v for k, v in scn.items() if k not in ("pair", "pipe", "time_chunks", "secondary_chunks")}
+    base["secondary_backing"] = {k: rng.choice(["numpy", "dask"]) for k in sorted(scn.get("secondary") or {})}
+    layouts = [["time", "y", "x"], ["time", "x", "y"]] if op == "zonal_mean" else [list(l) for l in S.LAYOUTS]
+    steps = []
+    cur = base
+    for i in range(rng.randint(2, 4)):
+        kind = "first" if i == 0 else rng.choice(["same", "layout", "layout", "flip", "flip-inplace"])
+        v = dict(cur)
+        if kind == "layout":
+            v["layout"] = list(rng.choice(layouts))
+        elif kind in ("flip", "flip-inplace"):
+            # the user's data change (y reversed); the secondary rasters stay as they are
+            v["cube"] = S.arr2j(np.ascontiguousarray(S.j2arr(cur["cube"])[:, ::-1, :]))
+        steps.append({"kind": kind, "scn": v, "lazy": rng.random() < 0.5})
+        cur = v
+    return base, steps
+
+
+def check_history(scn, key, ref_cache):
+    """O12 call history with shared argument objects.  The accessor is called 2-4 times in a row
+    in this process; the calls share the very same secondary raster / broadcast argument OBJECTS
+    (numpy- or dask-backed, so a lazily opened raster keeps its dask name) while the cube changes
+    between calls: another dimension order, other content in a new object, other content written
+    IN PLACE into the same object, in-memory or dask-backed.  Every call must return what the same
+    call returns on fresh objects (computed beforehand).  Reaches what a single call never does:
+    state the library keeps between calls, keyed by something that does not determine the
+    answer (object identity, a dask name taken before a transpose, shapes ...)."""
+    import dask
+
+    from . import runner
+
+    ref, ref_exc = ref_cache["ref"]
+    if ref is None or scn["op"] == "dekad":
+        return []
+    base, steps = gen_history(scn, key)
+    expected = []
+    for st in steps:
+        if st["lazy"] and runner.relaxed(st["scn"]):
+            st["lazy"] = False
+        e, exc, _ = runner.eager_reference(st["scn"])
+        expected.append((e, exc))
+    aux = S.build_aux(base, lazy=True)  # built once; shared by every call of the history
+    before = S.input_digests(aux["__watch__"])
+    out = []
+    cube = None
+    for i, (st, (exp, exp_exc)) in enumerate(zip(steps, expected)):
+        v = st["scn"]
+        if st["kind"] == "flip-inplace" and cube is not None and cube.data.flags.writeable and list(cube.dims) == list(v["layout"]):
+            cube.data[...] = S.build_cube(v).data  # same DataArray object, same buffer, new content
+        else:
+            cube = S.build_cube(v)
+        if exp_exc is not None:
+            continue
+        try:
+            res = S.apply_op(v, S.make_lazy(v, cube) if st["lazy"] else cube, lazy=True, aux=aux)
+            (res,) = dask.compute(res, scheduler="synchronous")
+        except Exception as e:  # noqa: BLE001
+            out.append(("history-call-raises", f"call {i + 1} of {len(steps)} ({st['kind']}, {'dask' if st['lazy'] else 'in-memory'} cube, layout {v['layout']}, shared arguments {base['secondary_backing']}) raised {type(e).__name__}: {str(e)[:160]}; the same call on fresh objects succeeds"))
+            break
+        for cls, msg in S.compare(exp, S.normalise(res)):
+            out.append((f"history-call-differs-{cls}", f"call {i + 1} of {len(steps)} ({st['kind']}, {'dask' if st['lazy'] else 'in-memory'} cube, layout {v['layout']}, shared arguments {base['secondary_backing']}; history {[s_['kind'] for s_ in steps[: i + 1]]}): {msg}"))
+        if out:
+            break
+    after = S.input_digests(aux["__watch__"])
+    for k in before:
+        if before[k] != after[k]:
+            out.append(("history-input-modified", f"shared argument '{k}' changed during a call history"))
+    return out
+
+
 def check_real_schedulers(scn, ref_cache):
     """O4 cross-check with dask's real synchronous and threaded schedulers (warm kernels)."""
     import dask
@@ -562,10 +636,18 @@ def job_op(job):
                     mv = []
                 agg.bump("probes", "mixed_backing_checked")
                 rr.violations.extend(mv)
+            if op != "dekad" and not scn.get("pair"):
+                try:
+                    hv = check_history(scn, key, cache)
+                except Exception as e:  # noqa: BLE001
+                    agg.d["harness"].append(f"{key}: history: {type(e).__name__}: {e}\n{traceback.format_exc()[-800:]}")
+                    hv = []
+                agg.bump("probes", "call_histories_checked")
+                rr.violations.extend(hv)
         if rr.violations:
 
             def minimiser(vclass, budget, scn=scn, cfg=cfg, rr=rr):
-                if vclass in ("pixel-equivariance", "layout-invariance") or vclass.startswith("mixed-backing"):
+                if vclass in ("pixel-equivariance", "layout-invariance") or vclass.startswith("mixed-backing") or vclass.startswith("history-"):
                     return None
                 mcache = {}
 
@@ -716,6 +798,11 @@ def replay_file(path):
         ref, ref_exc, _ = runner.eager_reference(payload["scenario"])
         cache["ref"] = (ref, ref_exc)
         rr.violations.extend(check_layout_invariance(payload["scenario"], cache))
+    if wl == "A" and want.startswith("history-"):
+        cache = {}
+        ref, ref_exc, _ = runner.eager_reference(payload["scenario"])
+        cache["ref"] = (ref, ref_exc)
+        rr.violations.extend(check_history(payload["scenario"], payload["key"], cache))
     if wl == "A" and want == "pixel-equivariance":
         cache = {}
         ref, ref_exc, _ = runner.eager_reference(payload["scenario"])
